@@ -6,6 +6,7 @@ import (
 	"os"
 	"path/filepath"
 	"reflect"
+	"runtime/debug"
 	"sort"
 	"strings"
 	"sync"
@@ -60,14 +61,31 @@ func readSnap(ss moss.Snapshot) (s string) {
 	return sxString(readsSx(ss, baseUniverse, 0))
 }
 
+// readIterRest: what an open iterator shows - everything from the start of its range, read by
+// seeking back to the smallest key (the iterator re-creates its cursors from its snapshot's
+// stack) and scanning to the end.
 func readIterRest(it moss.Iterator) (s string) {
+	defer debug.SetPanicOnFault(debug.SetPanicOnFault(true))
 	defer func() {
 		if r := recover(); r != nil {
 			s = fmt.Sprintf("PANIC %v", r)
 		}
 	}()
-	k, v, err := it.Current()
-	return fmt.Sprintf("%q %q %v", k, v, err)
+	var sb strings.Builder
+	err := it.SeekTo([]byte{})
+	for n := 0; err == nil && n < 10000; n++ {
+		k, v, e := it.Current()
+		if e != nil {
+			fmt.Fprintf(&sb, "<%v>", e)
+			break
+		}
+		fmt.Fprintf(&sb, "%q=%q ", k, v)
+		err = it.Next()
+	}
+	if err != nil && err != moss.ErrIteratorDone {
+		fmt.Fprintf(&sb, "<%v>", err)
+	}
+	return sb.String()
 }
 
 func famRefs(w *bufio.Writer, seed uint64, n int) error {
@@ -86,6 +104,9 @@ func famRefs(w *bufio.Writer, seed uint64, n int) error {
 		if children {
 			g.o.childPct = 60
 		}
+		// a quarter of the cases with children keep ALL data in child collections (the top-level
+		// collection never gets a segment: file bookkeeping then hangs on the child footers)
+		childOnly := children && r.chance(1, 2)
 		var s *moss.Store
 		var c moss.Collection
 		open := func(concern int) error {
@@ -136,21 +157,68 @@ func famRefs(w *bufio.Writer, seed uint64, n int) error {
 			handles = append(handles[:j], handles[j+1:]...)
 		}
 		steps := 8 + r.intn(12)
+		emptyFooters := 0
+		witnessRounds := 0
+		lastFile, lastCompactions := "", uint64(0)
 		var labels []sx
 		collOpen, storeOpen := true, true
 		for st := 0; st < steps; st++ {
-			switch r.pick([]int{30, 12, 8, 8, 8, 6, 18, 4, 3, 3}) {
+			choice := r.pick([]int{30, 12, 8, 8, 8, 6, 18, 4, 3, 3, 6})
+			if i == 0 {
+				choice = 0
+			}
+			switch choice {
 			case 0: // a persisted round
 				if !collOpen {
 					continue
 				}
 				b := g.nonEmptyBatch()
+				if i == 0 {
+					// case 0 of every shard is the witness of known finding F31: all data in one child
+					// collection, the child dropped and re-created, so that a round keeps nothing of
+					// the old footer and the store moves on to a new data file
+					witness := []*tbatch{
+						{kids: []kid{{name: "c1", b: &tbatch{ops: []bop{{'s', []byte("k0"), []byte("a")}}}}}},
+						{kids: []kid{{name: "c1", del: true}}},
+						{kids: []kid{{name: "c1", b: &tbatch{ops: []bop{{'s', []byte("k0"), []byte("b")}}}}}},
+					}
+					b = witness[witnessRounds%len(witness)]
+					witnessRounds++
+				} else if childOnly {
+					b.ops = nil
+					if len(b.kids) == 0 {
+						b.kids = []kid{{name: childNames[0], b: &tbatch{ops: []bop{{'s', []byte("k0"), g.value()}}}}}
+					}
+				}
 				if err := (&H{coll: c}).execBatch(b); err != nil {
 					note("ExecuteBatch: %v", err)
 					continue
 				}
 				waitPersisted(c)
 				labels = append(labels, L("round"))
+				if os.Getenv("VERIF_DEBUG_REFS") != "" {
+					fs, _ := s.Snapshot()
+					fmt.Fprintf(os.Stderr, "case %d round: batch %s\n   files %v footer %s\n", i, sxString(b.sx()), listDataFiles(dir), sxString(stackSx(moss.VerifDumpFooter(fs))))
+					fs.Close()
+				}
+				// did this round make the store start a NEW data file without compacting?  That happens
+				// when nothing of the old footer survives into the new one (every collection that held
+				// persisted data was dropped): the old file then has no owner left (known finding F31)
+				if storeOpen {
+					if fs, err := s.Snapshot(); err == nil && fs != nil {
+						name := moss.VerifDumpFooter(fs).FileName
+						fs.Close()
+						st, _ := s.Stats()
+						nc, _ := st["total_compactions"].(uint64)
+						if lastFile != "" && name != "" && name != lastFile && nc == lastCompactions {
+							emptyFooters++
+						}
+						if name != "" {
+							lastFile = name
+						}
+						lastCompactions = nc
+					}
+				}
 			case 1: // collection snapshot
 				if !collOpen {
 					continue
@@ -232,6 +300,19 @@ func famRefs(w *bufio.Writer, seed uint64, n int) error {
 					collOpen = false
 					labels = append(labels, L("closecoll"))
 				}
+			case 10: // close and reopen under another compaction concern (only without open handles)
+				if collOpen && storeOpen && len(handles) == 0 {
+					c.Close()
+					s.Close()
+					sleepMicros(3000)
+					if err := open(r.pick([]int{3, 3, 4})); err != nil {
+						note("reopen: %v", err)
+						collOpen, storeOpen = false, false
+					} else {
+						lastFile = ""
+						labels = append(labels, L("reopen", cfg.Concern))
+					}
+				}
 			case 9: // close the store too
 				if !collOpen && storeOpen {
 					s.Close()
@@ -292,10 +373,21 @@ func famRefs(w *bufio.Writer, seed uint64, n int) error {
 		rr.mu.Unlock()
 		emit(L("case", i, int64(cs), cfg.sx(), L("universe", L())))
 		emit(L("refs", append([]sx{"labels"}, labels...), L("problems", len(problems), fmt.Sprintf("%q", fmt.Sprint(problems))),
-			L("fds", len(fds)), L("maps", len(maps)), L("files", len(files), fmt.Sprintf("%q", strings.Join(files, ","))),
+			L("fds", len(fds)), L("maps", len(maps)), L("files", len(files), fmt.Sprintf("%q", strings.Join(files, ","))), L("emptyfooters", emptyFooters),
 			kinds, evs))
 		emit(L("end"))
 		os.RemoveAll(dir)
 	}
 	return nil
+}
+
+func listDataFiles(dir string) []string {
+	var out []string
+	es, _ := os.ReadDir(dir)
+	for _, e := range es {
+		if strings.HasPrefix(e.Name(), "data-") && strings.HasSuffix(e.Name(), ".moss") {
+			out = append(out, e.Name())
+		}
+	}
+	return out
 }
